@@ -21,6 +21,9 @@ impl SignatureConverter<'_> {
     pub fn convert_fn_to_trait_fn(&self) -> EntraitSignature {
         let mut entrait_sig = EntraitSignature::new(self.input_sig.sig.clone());
 
+        // a trait method (and its implementation) cannot be `const`
+        entrait_sig.sig.constness = None;
+
         // strip away attributes
         for fn_arg in entrait_sig.sig.inputs.iter_mut() {
             match fn_arg {
